@@ -513,17 +513,18 @@ def classify(text, name):
     return ("garbled", l[:200])
 
 
+def tokens(v):
+    """The definition tokens (symbols) of an observed / expected value, in order."""
+    if isinstance(v, Sym):
+        return [str(v)]
+    if isinstance(v, list):
+        return [t for y in v for t in tokens(y)]
+    return []
+
+
 def token_relation(g, group, v):
     """What an unexpectedly visible value is, relative to the import group (stable signature field)."""
-    toks = []
-
-    def walk(x):
-        if isinstance(x, Sym):
-            toks.append(str(x))
-        elif isinstance(x, list):
-            for y in x:
-                walk(y)
-    walk(v)
+    toks = tokens(v)
     bylib = {d.tok: d for d in g.defs.values()}
     if not toks or toks[0] not in bylib:
         return "unknown-value"
@@ -552,10 +553,7 @@ def judge_probe(g, group, merged, name, oa, ob, st):
     d = g.defs[bind]
     k = d.kind
     if oa[0] == "unbound" or ob[0] == "unbound":
-        if k in CALLABLE:
-            # keep the model's counters in step: the call did not happen
-            pass
-        return ("missing-binding", {})
+        return ("missing-binding", {})          # (no call happened: the model's counters stay as they are)
     if k == "var":
         ok = oa[0] == "value" and same(Sym(d.tok), oa[1], False) and ob[0] == "error"
     elif k == "state":
@@ -572,30 +570,13 @@ def judge_probe(g, group, merged, name, oa, ob, st):
     st.loose = True
     got = oa if k in ("var", "state") else ob
     if got[0] == "value":
-        toks = []
-
-        def walk(x):
-            if isinstance(x, Sym):
-                toks.append(str(x))
-            elif isinstance(x, list):
-                for y in x:
-                    walk(y)
-        walk(got[1])
-        exp_toks = []
-        if k not in ("var", "state"):
-            walk_exp = []
-
-            def w2(x):
-                if isinstance(x, Sym):
-                    walk_exp.append(str(x))
-                elif isinstance(x, list):
-                    for y in x:
-                        w2(y)
-            # recompute without disturbing the state
-            w2(expect_call(g, bind, State()))
-            exp_toks = walk_exp
+        toks = tokens(got[1])
+        if k == "var":
+            exp_toks = [d.tok]
+        elif k == "state":
+            exp_toks = []
         else:
-            exp_toks = [d.tok] if k == "var" else []
+            exp_toks = tokens(expect_call(g, bind, State()))     # (a scratch state: the real one is not disturbed)
         if toks != exp_toks:
             return ("wrong-binding", {"what": "value-of-another-definition"})
         return ("wrong-state", {"what": "counter-value"})
@@ -750,7 +731,6 @@ def run_graph(job):
                               "probe_name": ta.strip()[:300], "probe_call": tb.strip()[:300]})
                     out["viol"].append((sig, w))
             if out["sample"] is None and len(merged) > 1 and depth(grp[0]) >= 2:
-                n0 = sorted(merged)[0]
                 out["sample"] = {"environment": wit0["environment"], "bound_names_expected": sorted(merged),
                                  "names_probed": len(names), "graph": gtxt[:1500]}
         lc = load_counts(r.out)
@@ -871,11 +851,12 @@ def run_program(b, d, g, gtxt, grp, merged, names, how, raising, rng, out, count
     lines = [l for l in r.out.split("\n") if l.strip()]
     loads = [l for l in lines if l.startswith("@load ")]
     vals = [l for l in lines if not l.startswith("@load ")]
-    try:
-        parsed = [sexpr.parse(l) for l in vals]
-    except Exception:
-        out["viol"].append(({"mode": "garbled-output", "via": how}, wit))
-        return
+    parsed = []
+    for l in vals:
+        try:
+            parsed.append(sexpr.parse(l))
+        except Exception:
+            parsed.append(Sym(l))              # e.g. #<procedure ...>: compared as an opaque token
     if not parsed or parsed[0] != Sym("%start"):
         # the import itself failed
         msg, irr = parse_error(r.err)
@@ -934,8 +915,8 @@ def check(rep, tier, seed, variant="hooks", ngraphs=None, ngroups=None):
     b = B.ensure(variant)
     rep.builds.add(variant)
     exe = b.native("envprobe")
-    ngraphs = ngraphs or (120 if tier == "quick" else 4000)
-    ngroups = ngroups or 20
+    ngraphs = ngraphs or (100 if tier == "quick" else 3000)
+    ngroups = ngroups or 18
     jobs = [(b, exe, gi, seed * 1000003 + gi * 7 + 14, ngroups, 2) for gi in range(ngraphs)]
     heapfail = 0
     for o in R.pmap(run_graph, jobs):
